@@ -4,6 +4,7 @@ package main
 // go/ssa in naive form, and parsing the //@ contract blocks.
 
 import (
+	"sync"
 	"fmt"
 	"go/ast"
 	"go/constant"
@@ -42,6 +43,9 @@ type Program struct {
 	typeInvs   []typeInv
 	valueInvs  []*valueInv
 	defines    map[string]*Define
+	localsSnap map[string][]varRec // contracts/locals.json: declared variables of functions under contract
+	renameCache map[*ssa.Function]map[string]string
+	renameMu    sync.Mutex
 }
 
 // Define: a named predicate/expression of the contract language
